@@ -40,6 +40,7 @@ class Box(Symbol):
     spare: Optional[Part] = None
     row: Tuple[Part, ...] = ()
     extras: Optional[List[Part]] = None
+    slots: List[Optional[Part]] = field(default_factory=list)
 
     def __repr__(self):
         return f"{type(self).__name__}({self.label})"
